@@ -106,7 +106,7 @@ def run(ctx, family=FAMILY, detail=False, decorate_docs=False, space=False):
   for k_long in range(12 if thorough else 3):
     rid += 1
     # (the first one always has several hundred significant times)
-    ad = long_doc(ctx.rng, count=ctx.rng.choice([301, 400]) if k_long == 0 else None, untimed=ctx.rng.random() < 0.5)
+    ad = long_doc(ctx.rng, count=ctx.rng.choice([520, 640]) if k_long == 0 else None, untimed=ctx.rng.random() < 0.5)
     jobs.append((ad, rid, None, detail, via(rid)))
     origin[rid] = ("long", ad)
   recs = observe_all(jobs)
